@@ -380,4 +380,7 @@ def run(model, R):
     # the ranks the traversals are keyed by exist on every lattice, also on an unpickled one
     from .common import no_unpickle_shortcut
     R.guard('TRAVERSAL', None, '_init call sites', no_unpickle_shortcut, model, R, 'TRAVERSAL')
+    # a lattice loaded from an unordered serialisation is only the documented structure if the loaders forward raw (C06's rule)
+    from . import c06 as _c06
+    R.guard('ORDER', None, 'raw flag', _c06.raw_is_forwarded, model, R)
     return __doc__.strip()
